@@ -665,7 +665,11 @@ def c19_chunk(args):
             ja = obs_log(wj, "A", rename_ids=True)
             jb = obs_log(wj, "B", rename_ids=True)
             bad = None
-            for nm, solo, joint in (("A", la, ja), ("B", lb, jb)):
+            placed = any(st_.get("op") == "sim.set_id_near" for (_t, st_) in merged)
+            # with the counter moved, numbers are handed out again and the scripted broker (whose
+            # relative references go through its table of numbers) may answer differently from the
+            # solo run: such joint runs are judged by the identifier rules only (V2)
+            for nm, solo, joint in (() if placed else (("A", la, ja), ("B", lb, jb))):
                 d = first_diff(solo, joint)
                 if d is not None:
                     bad = (nm, d)
@@ -747,7 +751,9 @@ def c19_replay(ns, rp):
     wa, _ = _run_timed(ns, cfg, HA)
     wb, _ = _run_timed(ns, rp.get("cfgB", cfg), HB)
     wj, Lj = _run_timed(ns, cfg, merged, ["C17"])
-    for nm, solo, joint in (("A", obs_log(wa, "A", True), obs_log(wj, "A", True)), ("B", obs_log(wb, "B", True), obs_log(wj, "B", True))):
+    placed = any(s_.get("op") == "sim.set_id_near" for (_t, s_) in merged)
+    for nm, solo, joint in (() if placed else (("A", obs_log(wa, "A", True), obs_log(wj, "A", True)),
+                                               ("B", obs_log(wb, "B", True), obs_log(wj, "B", True)))):
         d = first_diff(solo, joint)
         if d is not None:
             return False, "address %s differs at entry %d: solo=%r joint=%r" % (nm, d[0], d[1], d[2])
